@@ -87,6 +87,8 @@ type Item struct {
 type Program struct {
 	Cfg   Config `json:"cfg"`
 	Items []Item `json:"items"`
+	// Fault, if set, is the one fault plan to run (C08 replays); otherwise plans are drawn from Aux.
+	Fault *FaultSpec `json:"fault,omitempty"`
 	// Aux carries check specific integers (e.g. a seed for crash subset sampling).
 	Aux []uint64 `json:"aux,omitempty"`
 }
@@ -122,6 +124,15 @@ func (p *Program) NumTx() int {
 		}
 	}
 	return n
+}
+
+// FaultSpec is a serialisable simdisk fault plan.
+type FaultSpec struct {
+	Kind    int  `json:"kind"` // simdisk.CallKind
+	Ordinal int  `json:"ordinal"`
+	Burst   int  `json:"burst"`
+	Mode    int  `json:"mode"`
+	NoSpace bool `json:"nospace,omitempty"`
 }
 
 // Replay is the on-disk format of a saved case.
